@@ -827,6 +827,45 @@ func init() {
 		w.bufEnd = end
 		return &TupleVal{vals: []Value{c64(n), &IfaceVal{}}}
 	}
+	// bytes.NewBuffer(b) used as a *reader* over b: the same cursor model as bytes.Reader; Next returns a
+	// view of b itself (no copy), which is what makes it dangerous in a decoder
+	intrinsics["bytes.NewBuffer"] = func(ex *Exec, st *State, fr *Frame, c *ssa.Call, a []Value) Value {
+		o := st.newObject(objCell, nil)
+		o.val = &StructVal{}
+		o.ext = &readerExt{src: a[0].(*SliceVal), pos: c64(0)}
+		return &Ptr{obj: o.id}
+	}
+	intrinsics["(*bytes.Buffer).Next"] = func(ex *Exec, st *State, fr *Frame, c *ssa.Call, a []Value) Value {
+		p := a[0].(*Ptr)
+		rd, ok := st.obj(p.obj).ext.(*readerExt)
+		if !ok {
+			panic(engineErr("bytes.Buffer.Next on a buffer that is not a reader over a byte slice"))
+		}
+		n := a[1].(*Term)
+		avail := mkBin(OpSub, rd.src.len, rd.pos)
+		ex.oblige(st, mkCmp(OpSle, c64(0), n), "panic:slice", "bytes.Buffer.Next: negative count")
+		take := umin(n, avail)
+		k := ex.concretize(st, take, "bytes.Buffer.Next count", 1<<16)
+		view := &SliceVal{obj: rd.src.obj, off: mkBin(OpAdd, rd.src.off, rd.pos), len: c64(k), cap: c64(k), elem: rd.src.elem}
+		w := st.wobj(p.obj)
+		w.ext.(*readerExt).pos = mkBin(OpAdd, rd.pos, c64(k))
+		return view
+	}
+	intrinsics["(*bytes.Buffer).ReadByte"] = func(ex *Exec, st *State, fr *Frame, c *ssa.Call, a []Value) Value {
+		p := a[0].(*Ptr)
+		rd, ok := st.obj(p.obj).ext.(*readerExt)
+		if !ok {
+			panic(engineErr("bytes.Buffer.ReadByte on a buffer that is not a reader over a byte slice"))
+		}
+		avail := mkBin(OpSub, rd.src.len, rd.pos)
+		if ex.branch(st, mkCmp(OpUlt, c64(0), avail)) {
+			b := ex.byteAt(st, st.obj(rd.src.obj), mkBin(OpAdd, rd.src.off, rd.pos))
+			w := st.wobj(p.obj)
+			w.ext.(*readerExt).pos = mkBin(OpAdd, rd.pos, c64(1))
+			return &TupleVal{vals: []Value{b, &IfaceVal{}}}
+		}
+		return &TupleVal{vals: []Value{mkBV(8, 0), ex.stdGlobal(st, "io", "EOF")}}
+	}
 	intrinsics["(*bufio.Reader).ReadByte"] = func(ex *Exec, st *State, fr *Frame, c *ssa.Call, a []Value) Value {
 		p := a[0].(*Ptr)
 		rd := st.obj(p.obj).ext.(*readerExt)
